@@ -45,7 +45,10 @@ TEXT = {'C11': {'technique': 'Lean 4 proof by mutual structural induction over t
                   'comment** (for a classifier under which `#` is not a word character; the unrestricted first formulation is refuted and kept next to its '
                   'refutation); **the reported errors are exactly the unexpected symbols**, in order. The model is tied to the code by op `tok` (token kinds, '
                   "payloads, byte ranges, error ranges). The full partition predicate of C09 is evaluated on the implementation's output for every generated "
-                  'text.',
+                  'text. **Translator tie:** the symbol arms of the first pass (first character, peeked second character, byte length, kind) and the order of '
+                  'the arms of `match c` are regenerated from tokenizer.rs on every run; every row is proved to be a step of the model scanner for every '
+                  'classifier, position and state (C09_symbol_arms_tie), the rows are proved to be exactly the 18-entry symbol table of the render/tokenize '
+                  "law (C09_symbol_table_tie), and the arm order is the model's (C09_scan_arm_order).",
          'note': 'Trusted: Lean kernel, standard axioms, harness/driver, the extractor (extract/extract.py). External, assumed: Rust std Unicode tables, '
                  'unicode-segmentation, num-bigint decimal parsing (exercised by correspondence).'},
  'C10': {'technique': 'Lean 4 proof of local scanner laws (comment = its line ending, blanks skipped, line break yields a terminator iff the regenerated '
@@ -122,7 +125,12 @@ TEXT = {'C11': {'technique': 'Lean 4 proof by mutual structural induction over t
                   'with itself or with any of its reducts never answers false, leaves the store unchanged and never panics (C12_unify_reduct, '
                   'C12_unify_self_eval; the version without the scoping hypothesis is refuted by a kernel-checked witness).** Translator tie: every structural '
                   'arm of unifier.rs::unify — each of the nine alternatives of the shared binary-operator arm included — unifies the i-th child with the i-th '
-                  'child of the same variant (C12_unify_pairs_tie, table regenerated from the source on every run).',
+                  'child of the same variant (C12_unify_pairs_tie, table regenerated from the source on every run). **Occurs-check clause proved '
+                  '(Lemmas/UnifyAcyclic.lean): a successful or failed unify (and the whole checker) keeps the hole store acyclic (C12_unify_acyclic, '
+                  "C12_infer_acyclic, C12_whnf_syneq_acyclic); the occurs check computes exactly 'reachable and empty' (C12_occurs_exact), lowering only "
+                  'mentions empty cells reachable from the un-lowered term (C12_lowering_holes), so at every assignment the hole is not reachable from its '
+                  'solution (C12_assigned_not_self); zonking terminates on the stores unification produces (C12_zonk_terminates, C12_zonk_after_unify); '
+                  'store-level scoping of a solution (C12_solution_scoped_store).**',
          'note': 'Trusted: Lean kernel, standard axioms, harness/driver. Hook H2 attributes failures caused by hole copies (KF-holecopy).'},
  'C18': {'technique': 'Lean 4 proof (Hoare-style triples over the state monad, induction on fuel) that normalisation, unification and type checking leave both '
                       'contexts exactly as they were on every path; contexts are state in the model and are pushed/popped where the Rust pushes/pops; the '
@@ -247,7 +255,15 @@ TEXT = {'C11': {'technique': 'Lean 4 proof by mutual structural induction over t
                   "parser returns a tree without recorded error, every node's range runs from the start of its first token to the end of its last token "
                   "(parentheses included for a group, binder variables carry exactly their identifier token's range), children lie inside their parent, "
                   'siblings are disjoint and in source order — before re-association (after it: known finding KF-range-paren-chain). Type-error ranges are '
-                  'observed, not modelled.',
+                  'observed, not modelled. **Scoping diagnostics (Lemmas/ResolveRanges.lean): the errors `resolve` adds are exactly what a linear run over the '
+                  "tree's scope events reports (C15_scope_errors_exact, C15_scope_error_classified: an occurrence whose name is unbound there, a binder whose "
+                  'name is bound there, nothing else), every range is the range of a variable node or of a binder of the tree (C15_scope_error_ranges), in '
+                  'traversal order (C15_scope_errors_in_traversal_order; plain source order is refuted: a group registers all its names first — the binary '
+                  'prints the same order), re-association leaves the events untouched (C15_reassoc_keeps_events), and on a tree the parser produced every such '
+                  'range is an identifier token, for an occurrence possibly with the parentheses written directly around it '
+                  '(C15_scope_error_is_identifier_fixed; the bare-token form C15_scope_error_is_identifier holds when no `( x )` occurs and is refuted '
+                  'otherwise: a parenthesised variable is a subexpression whose range includes its parentheses — the reading the range oracles have used all '
+                  'along).** Type-error sites: C15_type_error_sites.',
          'note': 'Trusted: Lean kernel, standard axioms, harness/driver; Unicode whitespace supplied by Rust std.'},
  'C16': {'technique': "Lean 4 proof that the printer model's output tokenizes to a sentence of grammar.y (structural recursion over the term with a separation "
                       'invariant, the C10 render law, and a derivation in the grammar regenerated from grammar.y), plus theorems on which operand positions '
@@ -302,7 +318,12 @@ TEXT = {'C11': {'technique': 'Lean 4 proof by mutual structural induction over t
                   'first formulations were refuted by the proof attempt and are kept next to their refutations. Correspondence: op `parse` (resolved term with '
                   'the source range of every node, or the ranges of the diagnostics in order) on every token sequence up to length 3 (4 thorough) over the '
                   'full alphabet, every grammar sentence up to 4 (5) tokens, generated programs with token edits, nesting families. Oracles: accepted => '
-                  "sentence of grammar.y with exactly one derivation (Earley); generated sentence => accepted with the generator's tree.",
+                  "sentence of grammar.y with exactly one derivation (Earley); generated sentence => accepted with the generator's tree. **Translator tie "
+                  '(regenerated on every run):** extract/arms.py reads, for each of the 36 packrat functions of parser.rs, the macro invocations and calls in '
+                  'order (try_return!/try_eval!/plain call/consume_token!/expect_token!/node built); for the 8 choice functions, the 9 binary-operator '
+                  'functions and the 5 keyword leaves (22 of 36) the body the model runs IS the interpretation of the extracted row (C07_parser_steps_regular: '
+                  'alternatives in order; left operand nonterminal, operator token, right operand nonterminal, node), the other 14 rows are compared with the '
+                  'rows the model was written from (C07_parser_steps_irregular).',
          'note': 'Trusted: Lean kernel, standard axioms, harness/driver, the Earley recogniser, the renderer of prog.rs.'},
  'C08': {'technique': 'Lean proof that the model resolver (name->depth map with insert/remove, as the Rust) is sound and complete w.r.t. a binder-stack '
                       'specification toDB, restores its map, and allocates fresh holes; resolver model tied to parser.rs by op `parse` (indices of every '
